@@ -488,9 +488,10 @@ class Interp:
                 return Bool(True)       # label lists are validated lists of str (Plate.__init__, C13.R4)
             if name in ('list',):
                 return args[0] if args else ListV([])
-            if name in ('sorted', 'set', 'reversed', 'frozenset') and args and isinstance(args[0], ListV) and args[0].user:
+            if name in ('sorted', 'set', 'reversed', 'frozenset') and args and isinstance(args[0], ListV):
+                # the caller's list, or the list of selections parsed from it entry by entry
                 self.selfobj.attrs['__order_lost__'] = Const(name)
-                return ListV(list(reversed(args[0].items)), user=True)
+                return ListV(list(reversed(args[0].items)), user=args[0].user)
             if name in self.F:
                 return self.call(name, args)
             return Other(name)
